@@ -4,7 +4,7 @@ From TT Require Import Model.Doc Gen.StyleTables Model.Isd Model.Lcd Spec.LcdSpe
 
 Definition time_of (a : attrs) : Q * option Q := (or0 (e_begin a), e_end a).
 Definition time_eqb (x y : Q * option Q) : bool := Qeq_bool (fst x) (fst y) && oQ_eqb (snd x) (snd y).
-Definition fp_time (f : fp) : Q * option Q := let '(b, e, _, _) := f in (b, e).
+Definition fp_time (f : fp) : Q * option Q := let '(b, e, _, _, _) := f in (b, e).
 
 (* the source regions that stay / that are aliased, in order *)
 Fixpoint kept_src (rs : list elem) (out : list (elem * option text)) : list elem :=
@@ -23,8 +23,8 @@ Proof.
 Qed.
 Lemma fp_eqb_time g f : fp_eqb g f = true -> time_eqb (fp_time g) (fp_time f) = true.
 Proof.
-  destruct g as [[[b1 e1] w1] d1], f as [[[b2 e2] w2] d2]. unfold fp_eqb, time_eqb, fp_time. cbn [fst snd].
-  intros H. apply andb_true_iff in H as [H _]. apply andb_true_iff in H as [H _]. exact H.
+  destruct g as [[[[b1 e1] w1] d1] t1], f as [[[[b2 e2] w2] d2] t2]. unfold fp_eqb, time_eqb, fp_time. cbn [fst snd].
+  intros H. apply andb_true_iff in H as [H _]. apply andb_true_iff in H as [H _]. apply andb_true_iff in H as [H _]. exact H.
 Qed.
 
 Lemma loop_alias_timing c d inits ret rs out : loop_rel c d inits ret rs out ->
